@@ -20,13 +20,14 @@
 (* assertions), ScoreIn01 / ScoreIgnores on the reported score, and the    *)
 (* score laws for all count tuples up to MaxCount (ASSUME).                *)
 (***************************************************************************)
-EXTENDS SetCoverOps, TLC
+EXTENDS SetCoverOps, SetCoverCritical, TLC
 
 CONSTANTS MaxA,       \* maximal number of assertions on the test case
           MaxM,       \* maximal number of mutants
           Statuses,   \* subset of {"run", "timeout", "unchecked"}
           WithExc,    \* BOOLEAN: also enumerate exceptions raised on mutants
           MaxCount,   \* bound for the count tuples of the score laws
+          UseCritical,\* BOOLEAN: start from the maps of SetCoverCritical instead of all small maps
           Hazard      \* "none" = the code; what-if variants that must violate:
                       \* "shift_remove": delete the dropped assertions from the list in
                       \*    ascending index order (the code iterates in reverse);
@@ -41,11 +42,21 @@ vars == <<nA, nM, viol, st, exc, pc, km, unc, cands, keep, todo, left, snap>>
 As == 1..nA
 Ms == 1..nM
 
-Init ==
+InitAll ==
   /\ nA \in 0..MaxA /\ nM \in 0..MaxM
   /\ viol \in [(1..nA) \X (1..nM) -> BOOLEAN]
   /\ st \in [1..nM -> Statuses]
   /\ exc \in (IF WithExc THEN SUBSET (1..nM) ELSE {{}})
+
+InitCritical ==
+  \E c \in CriticalMaps :
+    /\ nA = Len(c) /\ nM = MaxOf(UNION {c[a] : a \in DOMAIN c})
+    /\ viol = [p \in (1..nA) \X (1..nM) |-> p[2] \in c[p[1]]]
+    /\ st = [m \in 1..nM |-> "run"]
+    /\ exc = {}
+
+Init ==
+  /\ IF UseCritical THEN InitCritical ELSE InitAll
   /\ pc = "build" /\ km = <<>> /\ unc = {} /\ cands = {} /\ keep = {} /\ todo = {}
   /\ left = 1..nA /\ snap = {}
 
